@@ -54,6 +54,7 @@ func main() {
 		dir       = flag.String("dir", "/repo", "module/package directory to load from")
 		pkgPath   = flag.String("pkg", ".", "package pattern relative to dir")
 		overlayD  = flag.String("overlay", "", "directory with harness files to overlay into the package directory")
+		overlayJ  = flag.String("overlayjson", "", "JSON file {\"Replace\": {virtual path: real file}} with further overlay entries (stub packages, rewritten sources)")
 		pattern   = flag.String("harness", "^vh", "regexp selecting harness functions")
 		workers   = flag.Int("workers", 16, "parallel workers")
 		preempt   = flag.Int("preempt", 0, "preemption bound")
@@ -95,6 +96,23 @@ func main() {
 				}
 				overlay[filepath.Join(pkgDir, e.Name())] = b
 			}
+		}
+	}
+	if *overlayJ != "" {
+		b, err := os.ReadFile(*overlayJ)
+		if err != nil {
+			fatal(err)
+		}
+		var oj struct{ Replace map[string]string }
+		if err := json.Unmarshal(b, &oj); err != nil {
+			fatal(err)
+		}
+		for virt, real := range oj.Replace {
+			c, err := os.ReadFile(real)
+			if err != nil {
+				fatal(err)
+			}
+			overlay[virt] = c
 		}
 	}
 	env := append(os.Environ(), "GOFLAGS=", "GOPROXY=off", "GOSUMDB=off", "GOTOOLCHAIN=local")
